@@ -204,6 +204,58 @@ pub fn run(ctx: &Ctx, rep: &mut Report) {
                 ("2^252", { let mut t = [0u8; 32]; t[31] = 0x10; t }),
                 ("zero", [0u8; 32]),
             ];
+            // interior points of [2^252, l): canonical scalars whose low limbs are large / whose middle limbs are small
+            let mut frng = o.ctx.rng("c15-interior", (d * 100 + k) as u64);
+            let mut interior: Vec<(String, [u8; 32])> = vec![];
+            for t in 0..24 {
+                // 2^252 + r with r < l - 2^252 (r random, 124 bits, top limb pattern varied)
+                let mut b = [0u8; 32];
+                frng.fill_bytes(&mut b[..15]);
+                b[15] &= 0x07;
+                b[31] = 0x10;
+                match t % 4 {
+                    0 => {},
+                    1 => {
+                        for x in b[..8].iter_mut() {
+                            *x = 0xFF;
+                        }
+                    },
+                    2 => {
+                        for x in b[8..15].iter_mut() {
+                            *x = 0;
+                        }
+                        b[15] = 0;
+                    },
+                    _ => {
+                        // l - small random
+                        b = L_LE;
+                        let sub = (frng.next_u64() | 1) as u128 * (1 + (t as u128 % 3) * (1 << 40));
+                        let mut borrow = sub;
+                        for x in b.iter_mut() {
+                            let cur = *x as u128;
+                            let take = borrow & 0xFF;
+                            borrow >>= 8;
+                            if cur >= take {
+                                *x = (cur - take) as u8;
+                            } else {
+                                *x = (cur + 256 - take) as u8;
+                                borrow += 1;
+                            }
+                        }
+                    },
+                }
+                if canonical(&b) {
+                    interior.push((format!("interior point {t} of [2^252, l)"), b));
+                }
+            }
+            for &pos in &positions {
+                for (nm, v) in &interior {
+                    let mut b = base.clone();
+                    b[1 + 32 * pos..33 + 32 * pos].copy_from_slice(v);
+                    o.check(&format!("scalar slot {pos} = {nm} (degree {d}, rounds {k})"), &b, pos == 0);
+                    o.rep.count("scalar_interior_cases", 1);
+                }
+            }
             for &pos in &positions {
                 for (nm, v) in &vals {
                     let mut b = base.clone();
